@@ -667,6 +667,16 @@ pub fn run(c: &Ctx) {
             race += 1;
         }
     }
+    // relative listings / queries racing "change the cwd, then change the old cwd": an answer about the new state of
+    // the old directory matches no sequential order
+    for p in [".", "b"] {
+        for f in crate::fsalpha::single_path_ops(p, false).into_iter().filter(|o| claimed(o) && !o.is_mutator()) {
+            for (j, second) in [Op::Mkfile(s("/a/x")), Op::Remove(s("/a/f")), Op::MkdirP(s("/a/b/y"))].into_iter().enumerate() {
+                jobs.push((3, vec![vec![f.clone()], vec![Op::SetCwd(s("/d")), second]], j % 2 == 1, false));
+                race += 1;
+            }
+        }
+    }
     // queries racing calls that replace the entry or change its attributes (seed state 4: distinct modes / owners)
     let attr_racers = vec![Op::MoveP(s("/b"), s("/a/f")), Op::Chown(s("/a/f"), 7, 8), Op::Chmod(s("/a/f"), 0o755), Op::WriteAll(s("/a/f"), b"W".to_vec()), Op::Remove(s("/a/f"))];
     let queries = vec![Op::Owner(s("/a/f")), Op::Uid(s("/a/f")), Op::Gid(s("/a/f")), Op::Mode(s("/a/f")), Op::IsExec(s("/a/f")), Op::IsReadonly(s("/a/f")), Op::Entry(s("/a/f")), Op::ReadAll(s("/a/f")), Op::Entries(s("/a")), Op::IsFile(s("/a/f"))];
